@@ -19,6 +19,7 @@ import (
 	"fmt"
 	"os"
 	"os/exec"
+	"path/filepath"
 	"strconv"
 	"strings"
 	"sync"
@@ -58,6 +59,8 @@ type mfJob struct {
 	Seed int64   `json:"seed,omitempty"`
 	// byte-edit case sampled by TLC (spec/ByteEdit.tla)
 	EC *mfEditCase `json:"ec,omitempty"`
+	// line-edit case enumerated by TLC (spec/LineEdit.tla)
+	LC *mfLineEditCase `json:"lc,omitempty"`
 }
 
 type mfEdit struct {
@@ -96,6 +99,8 @@ type mfLine struct {
 	// byte-edit lines (k = "edit"): the case, number of deliveries, positions of the invalid ones
 	EC  *mfEditCase `json:"ec,omitempty"`
 	Obs *mfEditObs  `json:"obs,omitempty"`
+	// line-edit lines (k = "ledit")
+	LC *mfLineEditCase `json:"lc,omitempty"`
 	// diagnostics, not read by the specification
 	Info map[string]interface{} `json:"info,omitempty"`
 }
@@ -107,6 +112,7 @@ func malformedMain(args []string) {
 	repo := fl.String("repo", "/repo", "pandora tree (bundled scenario payloads are read from it)")
 	fuzz := fl.Int("fuzz", 0, "byte-level mutation cases per format x mode")
 	editsPath := fl.String("edits", "", "NDJSON byte-edit cases sampled by TLC -simulate (ByteEdit.tla)")
+	leditsPath := fl.String("ledits", "", "NDJSON line-edit cases enumerated by TLC (LineEdit.tla)")
 	batch := fl.Int("batch", 400, "jobs per child")
 	memMB := fl.Int("mem", 4096, "address-space limit of a child, MiB")
 	par := fl.Int("par", 4, "child processes running at the same time")
@@ -133,6 +139,17 @@ func malformedMain(args []string) {
 			}
 			e := ec
 			jobs = append(jobs, mfJob{K: "edit", EC: &e})
+		}
+	}
+	if *leditsPath != "" {
+		for _, m := range vt.ReadNDJSON(*leditsPath) {
+			b, _ := json.Marshal(m)
+			var lc mfLineEditCase
+			if err := json.Unmarshal(b, &lc); err != nil {
+				panic(err)
+			}
+			e := lc
+			jobs = append(jobs, mfJob{K: "ledit", LC: &e})
 		}
 	}
 	seed := vt.Seed()
@@ -204,7 +221,9 @@ func mfRunShard(jobs []mfJob, results []*mfLine, lo, hi int, prefix, repo string
 		var stderr bytes.Buffer
 		cmd.Stderr = &stderr
 		cmd.Stdout = os.Stderr
-		cmd.Env = append(os.Environ(), "GOTRACEBACK=single")
+		// scratch files of a job live below the parent's scratch directory: a child that dies in the middle of a job
+		// leaves nothing behind
+		cmd.Env = append(os.Environ(), "GOTRACEBACK=single", "TMPDIR="+filepath.Dir(prefix))
 		done := make(chan error, 1)
 		if err := cmd.Start(); err != nil {
 			panic(err)
@@ -255,11 +274,11 @@ func mfRunShard(jobs []mfJob, results []*mfLine, lo, hi int, prefix, repo string
 		}
 		j := jobs[next+completed]
 		what := mfCrashClass(stderr.String(), code)
-		ln := mfLine{K: j.K, C: j.C, Format: j.Fmt, Mode: j.Mode, Seed: j.Seed, EC: j.EC,
+		ln := mfLine{K: j.K, C: j.C, Format: j.Fmt, Mode: j.Mode, Seed: j.Seed, EC: j.EC, LC: j.LC,
 			Info: map[string]interface{}{"exit": code, "stderr": tail(firstLines(stderr.String(), 12), 1500)}}
 		if j.K == "case" {
 			ln.Evs = []mfEvent{{"Crash", what}}
-		} else if j.K == "edit" {
+		} else if j.K == "edit" || j.K == "ledit" {
 			ln.Evs = []mfEvent{}
 			ln.Obs = &mfEditObs{Res: "crash", InvalidAt: []int{}}
 		} else {
